@@ -130,6 +130,13 @@ def combos(chk, tier):
     KE = dict(elements=["E", "H"], pseudo_elements=["g"])
     out.append(("krome-var-reassigned+nograin", [d / "reassign.krome"], ["krome"], "", {}, KE))
     out.append(("krome-dexp-in-var+nograin", [d / "dexp-var.krome"], ["krome"], "", {}, KE))
+    # networks without hydrogen (the helper functions and the renormalisation refer to the H element only when there is one)
+    from .c17 import native
+    (d / "noh.naunet").write_text("\n".join([native(1, ["C", "O"], ["CO"]), native(2, ["C", "CR"], ["C+", "e-"], ty=101),
+                                              native(3, ["C+", "e-"], ["C"], b=-0.6), native(4, ["CO", "CR"], ["C", "O"], ty=101)]) + "\n")
+    (d / "heonly.naunet").write_text("\n".join([native(1, ["He", "CR"], ["He+", "e-"], ty=101), native(2, ["He+", "e-"], ["He"], b=-0.6)]) + "\n")
+    out.append(("no-hydrogen+nograin", [d / "noh.naunet"], ["naunet"], "", {}, E))
+    out.append(("helium-only+nograin", [d / "heonly.naunet"], ["naunet"], "", {}, E))
     out.append(("krome-d-intrinsics+nograin", [d / "intrinsics.krome"], ["krome"], "", {}, KE))
     out.append(("krome-late-directives+nograin", [d / "late.krome"], ["krome"], "", {}, KE))
     out.append(("krome-several-commons+nograin", [d / "commons.krome"], ["krome"], "", {}, KE))
